@@ -21,6 +21,8 @@ pub enum Dst {
     Broadcast,
     /// an address of the reading node itself
     Own,
+    /// a host that moves between nodes (its frames are read at whichever node the op names): host index 3 or 4
+    Roaming(u8),
 }
 
 #[derive(Clone, Copy, Debug, Serialize, Deserialize, PartialEq, Eq, Hash)]
@@ -103,21 +105,23 @@ fn run_generic<P: Protocol>(ctx: &Ctx, c: &Case) -> Vec<Viol> {
                 // build the frame / packet and the reference's view of source and destination
                 let (bytes, src_key, dst_key, dst_owner): (Vec<u8>, Vec<u8>, Vec<u8>, Option<usize>) = match c.mode {
                     MeshMode::Router => {
-                        let s = ip(at as u8, host % 3);
+                        let s = ip(at as u8, host % 5);
                         let (d, owner) = match dst {
                             Dst::Node(k) => {
                                 let k = k as usize % n;
                                 (ip(k as u8, 1), Some(k))
                             }
-                            Dst::Unknown => ([10, 200, 0, 1], None),
+                            Dst::Unknown | Dst::Roaming(_) => ([10, 200, 0, 1], None),
                             Dst::Broadcast => ([255, 255, 255, 255], None),
                             Dst::Own => (ip(at as u8, 2), Some(at)),
                         };
                         (ipv4_packet(s, d, body.as_bytes()), s.to_vec(), d.to_vec(), owner)
                     }
                     _ => {
-                        let s = mac(at as u8, host % 3);
+                        // hosts 3 and 4 roam: the same source address shows up behind different nodes over time
+                        let s = if host % 5 >= 3 { mac(0x77, host % 5) } else { mac(at as u8, host % 5) };
                         let (d, owner) = match dst {
+                            Dst::Roaming(h) => (mac(0x77, 3 + h % 2), None),
                             Dst::Node(k) => {
                                 let k = k as usize % n;
                                 (mac(k as u8, 1), Some(k))
@@ -258,7 +262,7 @@ pub fn run_case(ctx: &Ctx, c: &Case) -> Vec<Viol> {
 
 fn op_strategy() -> impl Strategy<Value = Op> {
     prop_oneof![
-        10 => (0u8..5, prop_oneof![4 => (0u8..5).prop_map(Dst::Node), 2 => Just(Dst::Unknown), 1 => Just(Dst::Broadcast), 1 => Just(Dst::Own)], 0u8..3).prop_map(|(at, dst, host)| Op::Read { at, dst, host }),
+        10 => (0u8..5, prop_oneof![4 => (0u8..5).prop_map(Dst::Node), 2 => Just(Dst::Unknown), 1 => Just(Dst::Broadcast), 1 => Just(Dst::Own), 3 => (0u8..2).prop_map(Dst::Roaming)], 0u8..5).prop_map(|(at, dst, host)| Op::Read { at, dst, host }),
         1 => (0u8..5, 0u8..4).prop_map(|(at, kind)| Op::Outsider { at, kind }),
     ]
 }
@@ -282,6 +286,9 @@ pub fn run(ctx: &Ctx) {
         }
     }
     alphabet.push(Op::Read { at: 0, dst: Dst::Broadcast, host: 1 });
+    alphabet.push(Op::Read { at: 0, dst: Dst::Unknown, host: 3 }); // roaming host 3 seen behind node 0
+    alphabet.push(Op::Read { at: 1, dst: Dst::Unknown, host: 3 }); // ... then behind node 1
+    alphabet.push(Op::Read { at: 2, dst: Dst::Roaming(0), host: 0 }); // node 2 sends to the roaming host
     alphabet.push(Op::Outsider { at: 1, kind: 1 });
     let depth: u32 = ctx.tier.pick(3, 4);
     let na = alphabet.len() as u64;
